@@ -695,8 +695,9 @@ func init() {
 				src += S("const %s = 'cv';\n$a = ['%s' => 1, \"%s\" => 2];\n$o = new stdClass; $o->%s = 'pv'; $o->%s_2 = [1];\n", fnm, nm, nm+"2", nm, nm) +
 					obCall(id, fnm) + obCall(id, S("$o->%s", nm)) + "echo json_encode($a), json_encode($o), \"\\n\";\nforeach ($a as $k => $x) { " + obCall(id, "$k") + "}\n"
 			default:
-				src += S("function %s() { global $%s; $%s = ($%s ?? 0) + 1; return $%s; }\n%s();\n$fn = '%s';\n", fnm, nm, nm, nm, nm, fnm, fnm) +
-					obCall(id, S("%s() . $%s", fnm, nm)) + obCall(id, "$fn() . ''") + S("echo function_exists('%s') ? 'y' : 'n', \"\\n\";\n", fnm)
+				// (a function whose name has upper-case letters cannot be called through a string in this interpreter)
+				src += S("function %s() { global $%s; $%s = ($%s ?? 0) + 1; return $%s; }\n%s();\n", fnm, nm, nm, nm, nm, fnm) +
+					obCall(id, S("%s() . $%s", fnm, nm)) + S("echo function_exists('%s') ? 'y' : 'n', \"\\n\";\n", fnm)
 			}
 			parts, libs, ids = append(parts, src), append(libs, nil), append(ids, id)
 		}
